@@ -23,3 +23,10 @@ impl VSum<u32> for u32 {
     open spec fn sum_req(s: Seq<u32>) -> bool { isum(s.map_values(|x: u32| x as int)) <= u32::MAX }
     open spec fn spec_sum(s: Seq<u32>) -> u32 { isum(s.map_values(|x: u32| x as int)) as u32 }
 }
+/// i64 (`MaintenanceCounter`): std folds with `+` from 0, left to right; every partial sum must fit
+impl VSum<i64> for i64 {
+    open spec fn sum_req(s: Seq<i64>) -> bool {
+        forall|k: int| 0 <= k <= s.len() ==> i64::MIN <= isum((#[trigger] s.take(k)).map_values(|x: i64| x as int)) <= i64::MAX
+    }
+    open spec fn spec_sum(s: Seq<i64>) -> i64 { isum(s.map_values(|x: i64| x as int)) as i64 }
+}
